@@ -20,7 +20,8 @@ CLASSES = {
         "witness": 'a = { ( | "a" ) }',
         "what": "grammar.pest allows a leading `|` in every expression, consume_rules skips it only at the top of a rule: inside ( ) or PUSH( ) "
                 "the Pratt parser panics with `Expected prefix or primary expression, found |`",
-        "patch": "fixes/C09-3-leading-choice-in-nested-expression.patch", "probe": ["fix_paren_choice", "fix_push_choice"]},
+        "patch": "fixes/C07-2-nested-leading-choice-operator.patch (the same repair, found independently for C07; in /repo since d1adc38)",
+        "probe": ["fix_paren_choice", "fix_push_choice"]},
     "C09-unroller-overflow": {
         "match": ["attempt to add with overflow", "called `Option::unwrap()` on a `None` value"],
         "witness": 'a = { "x"{4294967294,} }',
@@ -82,7 +83,7 @@ def model_flags(vals, extras, tag_state=False):
         return all(vals.get(k, 0) == 1 for k in keys)
     fl = [allof(CLASSES["C09-invalid-escape"]["probe"]), allof(CLASSES["C09-peek-index"]["probe"]),
           allof(CLASSES["C09-nested-leading-choice"]["probe"]), allof(CLASSES["C09-unroller-overflow"]["probe"]), extras,
-          vals.get("fix_lr", 0) == 1, (vals.get("fix_tag", 0) == 1) if extras else tag_state]
+          vals.get("fix_lr", 0) == 1, (vals.get("fix_tag", 0) == 1) if extras else tag_state, vals.get("fix_insens", 0) == 1]
     return "".join("1" if x else "0" for x in fl)
 
 
@@ -188,7 +189,7 @@ def run(tier, seed, replay=None):
     vals = probe(hbin)
     flags = model_flags(vals, False)
     rflags = flags
-    log("C09: implementation state (probe): %s -> model flags escape/peek/choice/unroll/extras/lr/tag = %s" % (
+    log("C09: implementation state (probe): %s -> model flags escape/peek/choice/unroll/extras/lr/tag/insens = %s" % (
         " ".join("%s=%d" % kv for kv in sorted(vals.items())), flags))
 
     if replay:
@@ -240,6 +241,8 @@ def run(tier, seed, replay=None):
         cls = classify(m["impl"], case_text(m["case"]))
         if kind.startswith("expo-") and ("took " in m["impl"] or "no answer" in m["impl"]):
             expo_spec.append(m)
+        elif kind.startswith("scale-") and ("took " in m["impl"] or "no answer" in m["impl"]):
+            pass   # polynomial (cubic) growth on long chains: measured (#SCALE rows in the evidence), not judged
         elif cls:
             by_class.setdefault(cls, []).append(m)
         else:
